@@ -106,22 +106,28 @@ def ProvJ.toModel (resLabel : String) (p : ProvJ) : Karp.Drift.Prov :=
   { its := p.its.map (fun (n, ofs) => { name := n, offerings := ofs.map (offReqs resLabel) }),
     itErr := p.itErr, drift := p.drift, driftErr := p.driftErr }
 
-/-- a step together with the provider description the spec reads -/
-def parseStep (resLabel : String) (j : Json) : Except String (Karp.Drift.Step × Option ProvJ) := do
+/-- a step as the harness describes it: `create` lacks the outcome of the `Requirement.Any()` calls, which is read off the
+    implementation's observation (`concretize`); the other steps come with the provider description the spec reads -/
+inductive RawStep
+  | plain (st : Karp.Drift.Step) (prov : Option ProvJ)
+  | create (claim : String) (providerLabels : List (String × String)) (launched : Bool)
+
+def parseStep (resLabel : String) (j : Json) : Except String RawStep := do
   let k ← strF j "k"
   let claim := (← strO j "claim").getD ""
   match k with
-  | "editPool" => pure (.editPool (← parsePool (← fld j "pool")), none)
-  | "deletePool" => pure (.deletePool, none)
-  | "hashctl" => pure (.hashctl, none)
-  | "label" => pure (.setLabel claim (← strF j "key") (← strO j "value"), none)
-  | "ann" => pure (.setAnn (if claim == "" then none else some claim) ((← strF j "key") == "hash") (← strO j "value"), none)
-  | "launched" => pure (.setLaunched claim (← boolD j "launched" false), none)
+  | "editPool" => pure (.plain (.editPool (← parsePool (← fld j "pool"))) none)
+  | "deletePool" => pure (.plain .deletePool none)
+  | "hashctl" => pure (.plain .hashctl none)
+  | "label" => pure (.plain (.setLabel claim (← strF j "key") (← strO j "value")) none)
+  | "ann" => pure (.plain (.setAnn (if claim == "" then none else some claim) ((← strF j "key") == "hash") (← strO j "value")) none)
+  | "launched" => pure (.plain (.setLaunched claim (← boolD j "launched" false)) none)
   | "prov" => do
     let p ← parseProv (← fld j "prov")
-    pure (.setProv (p.toModel resLabel), some p)
-  | "advance" => pure (.advance ((← intF j "min") * 60000000000), none)
-  | "reconcile" => pure (.reconcile claim, none)
+    pure (.plain (.setProv (p.toModel resLabel)) (some p))
+  | "advance" => pure (.plain (.advance ((← intF j "min") * 60000000000)) none)
+  | "reconcile" => pure (.plain (.reconcile claim) none)
+  | "create" => pure (.create claim (← listOf parseKV (← fld j "labels")) (← boolD j "launched" false))
   | _ => throw s!"bad step {k}"
 
 def sortKV (l : List (String × String)) : List (String × String) := (l.toArray.qsort (fun a b => a.1 < b.1)).toList
@@ -158,12 +164,53 @@ def parseSnap (j : Json) : Except String SnapObs := do
   pure { poolPresent := ← boolF j "poolPresent", poolHash := ← strO j "poolHash", poolVersion := ← strO j "poolVersion",
          hashNow := ← strF j "hashNow", claims, err := ← boolF j "err" }
 
+/-- the outcome of the `Any()` calls of one creation, read off the labels the implementation's NodeClaim carries: an entry
+    for every custom key of the template's requirements whose observed label is a value `Any()` may have returned -/
+def resolvedOf (wellKnown : List String) (R : Karp.Req.Reqs) (obs : List (String × String)) : List (String × String) :=
+  R.filterMap (fun kr =>
+    if Karp.Drift.customKey wellKnown kr.1 then
+      match obs.lookup kr.1 with
+      | some v => if v != "" && kr.2.anyAllowed v then some (kr.1, v) else none
+      | none => none
+    else none)
+
+/-- turn the described steps into model steps along the model's own run; `posts` are the implementation's snapshots AFTER
+    each step.  Also returns the first creation whose custom labels are not an outcome the `Any()` relation allows. -/
+def concretize (wellKnown : List String) : Karp.Drift.St → List RawStep → List SnapObs →
+    List (Karp.Drift.Step × Option ProvJ) × Option String
+  | _, [], _ => ([], none)
+  | s, r :: rest, posts =>
+    let (st, pv, bad) : Karp.Drift.Step × Option ProvJ × Option String :=
+      match r with
+      | .plain st pv => (st, pv, none)
+      | .create n pl l =>
+        let t := s.pool.pool.template
+        let obs := match posts.head? with
+          | some p => (match p.claims.find? (·.name == n) with | some c => c.labels | none => [])
+          | none => []
+        match t.nodeClassRef with
+        | some ref =>
+          (match Karp.Drift.templateReqs (t.requirements.getD []) (Karp.Drift.templateLabels s.pool.name t ref) with
+           | .ok R =>
+             let resolved := resolvedOf wellKnown R obs
+             let fresh := s.pool.present && !s.claims.any (·.name == n)
+             (.create n resolved pl l, none,
+              if fresh && !posts.isEmpty && !Karp.Drift.resolvedAllowed wellKnown R resolved then
+                some s!"create {n}: the custom labels {resolved} are not an outcome Requirement.Any() may produce" else none)
+           | .error _ => (.create n [] pl l, none, none))
+        | none => (.create n [] pl l, none, none)
+    let s' := match Karp.Drift.step s st with
+      | .ok (s', _) => s'
+      | .error _ => s
+    let (tl, bad') := concretize wellKnown s' rest posts.tail
+    ((st, pv) :: tl, bad.or bad')
+
 open Karp.Spec.DriftSpec in
 /-- the specification evaluated on one observed step: `env` is the model state BEFORE the step (only its environment
     part is read: the NodePool spec, Launched, managed/deleting, the provider description), `pre`/`post` are the
     implementation's snapshots around the step -/
 def judgeStep (i : Nat) (st : Karp.Drift.Step) (env : Karp.Drift.St) (prov : ProvJ) (resLabel : String)
-    (pre post : SnapObs) : Option (String × String) :=
+    (fresh : List (String × Karp.Hash.Pool)) (pre post : SnapObs) : Option (String × String) :=
   match st with
   | .reconcile n =>
     match env.claims.find? (·.name == n), pre.claims.find? (·.name == n), post.claims.find? (·.name == n) with
@@ -183,11 +230,19 @@ def judgeStep (i : Nat) (st : Karp.Drift.Step) (env : Karp.Drift.St) (prov : Pro
         some (s!"step {i}: NodeClaim {n} is launched and " ++
           (if cls == "static-drift-missed" then "its hash differs from the NodePool's under the same hash version"
            else "its labels do not satisfy the NodePool's requirements") ++ s!", but it is not reported Drifted [{cls}]", cls)
-      else if qc.drifted.isSome && !mayBeDrifted f then
+      else if qc.drifted.isSome && !mayBeDriftedFresh (fresh.lookup n) env.pool.pool (pre.poolHash != some pre.hashNow) f then
+        if mayBeDrifted f then
+          -- the only cause is a hash that differs although the NodeClaim was created, within this history, from a
+          -- template that must hash like the NodePool's current one, and the NodePool's annotation is up to date
+          some (s!"step {i}: NodeClaim {n} was created from the NodePool's current template (no drift-relevant edit since) " ++
+            s!"and is reported Drifted ({qc.drifted.getD ""}): it carries hash {pc.hash.getD ""}, the NodePool is annotated {pre.poolHash.getD ""}, its template hashes to {pre.hashNow}",
+            "fresh-claim-static-drift")
+        else
         some (s!"step {i}: NodeClaim {n} is reported Drifted ({qc.drifted.getD ""}) although " ++
           (if !f.launched then "it is not launched" else "its hash matches (or is not comparable), its labels satisfy the NodePool's requirements, its instance type is offered and the provider reports no drift"),
           "self-inflicted-drift")
       else none
+    | none, none, none => none  -- a NodeClaim that was never created (its create step found no NodePool)
     | _, _, _ => some (s!"step {i}: NodeClaim {n} missing from a snapshot", "harness")
   | .hashctl =>
     if !(pre.poolPresent && env.poolManaged) || post.err then none else
@@ -210,6 +265,20 @@ def judgeStep (i : Nat) (st : Karp.Drift.Step) (env : Karp.Drift.St) (prov : Pro
       match bad with
       | [] => none
       | (n, why) :: _ => some (s!"step {i}: hash controller, NodeClaim {n}: {why}", "hash-migration")
+  | .create n _ _ _ =>
+    -- created only when the NodePool exists and the name is new
+    if !pre.poolPresent || (pre.claims.any (·.name == n)) then none else
+    match post.claims.find? (·.name == n) with
+    | none => some (s!"step {i}: NodeClaim {n} was not created", "harness")
+    | some qc =>
+      if !stampedFromTemplate post.hashNow Karp.Drift.currentVersion qc.hash qc.version then
+        some (s!"step {i}: NodeClaim {n}, created from the NodePool as stored (template hash {post.hashNow}, annotated {pre.poolHash.getD "-"}/{pre.poolVersion.getD "-"}), " ++
+          s!"carries {qc.hash.getD "-"}/{qc.version.getD "-"}: not the hash of the template it was created from and the current hash version — " ++
+          "it will be reported Drifted (or a later template change will go unreported) without any change to the template",
+          "fresh-claim-hash-not-of-its-template")
+      else if qc.drifted.isSome then
+        some (s!"step {i}: NodeClaim {n} is created with a Drifted condition", "self-inflicted-drift")
+      else none
   | _ => none
 
 def driftOp (inp impl : Json) : Except String Resp := do
@@ -228,18 +297,23 @@ def driftOp (inp impl : Json) : Except String Resp := do
     claims := claims, prov := prov0.toModel resLabel,
     wellKnown := ← strList (← fld inp "wellKnown"), reservedLabels := ← strList (← fld inp "reservedLabels"),
     nodeClass := (nc.getD 0 "", nc.getD 1 "") }
-  let steps ← (← arrF inp "steps").mapM (parseStep resLabel)
+  let raw ← (← arrF inp "steps").mapM (parseStep resLabel)
+  -- the implementation's snapshots (absent after a panic)
+  let obs ← match fldOpt impl "snaps" with
+    | none => pure []
+    | some sj => do (← asArr sj).mapM parseSnap
+  let (steps, anyBad) := concretize s0.wellKnown s0 raw obs.tail
   match Karp.Drift.run s0 (steps.map (·.1)) with
   | .error _ =>
     -- a requirement with a comparison operator and no operand: the real code indexes values[0]
     pure { model := some (jObj [("panic", jStr "index-out-of-range")]), spec := none }
   | .ok states =>
     let model := jObj [("snaps", jArr (snapJson s0 false :: states.map (fun (s, e) => snapJson s e)))]
+    let allowed : Option Bool := some anyBad.isNone
     -- the specification on what the implementation did
     match fldOpt impl "snaps" with
     | none => pure { model := some model, spec := some false, why := "implementation produced no snapshots (panic?)" }
-    | some sj => do
-      let obs ← (← asArr sj).mapM parseSnap
+    | some _ => do
       if obs.length != steps.length + 1 then
         return { model := some model, spec := some false, why := "wrong number of snapshots" }
       -- environment before each step: s0 :: states; provider description before each step
@@ -248,18 +322,30 @@ def driftOp (inp impl : Json) : Except String Resp := do
         | [] => []
         | (_, p) :: rest => cur :: provs (p.getD cur) rest
       let provBefore := provs prov0 steps
+      -- `fresh`: the NodeClaims created within the history whose annotations nobody has edited since, with the NodePool
+      -- (as described by the input) they were created from
+      -- a NodeClaim created with a hash that is not its template's is a violation by itself (`pending`); the history is
+      -- read on for the consequence the property names — that NodeClaim reported Drifted — which is reported instead
       let rec go (i : Nat) (sts : List (Karp.Drift.Step × Option ProvJ)) (envs : List Karp.Drift.St) (pvs : List ProvJ)
-          (obs : List SnapObs) : Option (String × String) :=
+          (fresh : List (String × Karp.Hash.Pool)) (pending : Option (String × String)) (obs : List SnapObs) :
+          Option (String × String) :=
         match sts, envs, pvs, obs with
         | (st, _) :: sts', env :: envs', pv :: pvs', pre :: post :: obs' =>
-          match judgeStep i st env pv resLabel pre post with
-          | some v => some v
-          | none => go (i + 1) sts' envs' pvs' (post :: obs')
-        | _, _, _, _ => none
-      match go 0 steps envs provBefore obs with
-      | none => pure { model := some model, spec := some true }
+          let fresh' := match st with
+            | .create n _ _ _ => if env.pool.present && !env.claims.any (·.name == n) then (n, env.pool.pool) :: fresh else fresh
+            | .setAnn (some n) _ _ => fresh.filter (·.1 != n)
+            | _ => fresh
+          match judgeStep i st env pv resLabel fresh pre post, pending with
+          | some (why, "fresh-claim-static-drift"), some (why0, _) => some (why ++ " — " ++ why0, "fresh-claim-static-drift")
+          | some v, none =>
+            if v.2 == "fresh-claim-hash-not-of-its-template" then go (i + 1) sts' envs' pvs' fresh' (some v) (post :: obs')
+            else some v
+          | _, _ => go (i + 1) sts' envs' pvs' fresh' pending (post :: obs')
+        | _, _, _, _ => pending
+      match go 0 steps envs provBefore [] none obs with
+      | none => pure { model := some model, allowed := allowed, spec := some true, why := anyBad.getD "" }
       | some (why, cls) =>
-        pure { model := some model, spec := some false, why := why, extra := some (jObj [("signature", jStr cls)]) }
+        pure { model := some model, allowed := allowed, spec := some false, why := why, extra := some (jObj [("signature", jStr cls)]) }
 
 /-! ### c15.selfdrift -/
 
@@ -338,13 +424,18 @@ def selfOp (inp impl : Json) : Except String Resp := do
   let edit := fldOpt inp "edit"
   let editPool ← match edit with | some e => strF e "pool" | none => pure ""
   let editKind ← match edit with | some e => strF e "kind" | none => pure ""
+  -- (an empty new requirement list is omitted from the JSON)
   let editReqs ← match edit with
-    | some e => (match fldOpt e "reqs" with | some r => do pure (some (← listOf ScenarioJson.minExpr r)) | none => pure none)
+    | some e => (match fldOpt e "reqs" with
+      | some r => do pure (some (← listOf ScenarioJson.minExpr r))
+      | none => pure (if editKind == "reqs" then some [] else none))
     | none => pure none
   if (fldOpt impl "err").isSome then
     return { allowed := some true, spec := none }
   let pools ← (← arrF impl "pools").mapM parsePoolObs
   let launches ← (← arrF impl "launches").mapM parseLaunch
+  let launches2 ← (← arrD impl "launches2").mapM parseLaunch
+  let wave2 := (← strO inp "wave2").getD ""
   -- the provider's catalogue: every offering is listed, available or not
   let its : List (String × List OfferingS) := scn.its.map (fun it => (it.name, it.offerings.map (fun o =>
     ({ zone := o.zone, capacityType := o.ct, reservationID := o.resID } : OfferingS))))
@@ -399,6 +490,42 @@ def selfOp (inp impl : Json) : Except String Resp := do
           else if l.afterEdit.isSome && !mayBeDrifted f then
             verdict := some (s!"after the edit ({editKind}) of {editPool}: claim {l.claim} ({l.option}) of {l.pool} is reported Drifted ({l.afterEdit.getD ""}) without a cause", "self-inflicted-drift")
     | _, _ => if verdict.isNone then verdict := some (s!"claim {l.claim}: unknown pool {l.pool}", "harness")
+  -- the second wave: NodeClaims created from the NodePools as stored AFTER the edit (before or after the hash controller
+  -- re-stamped the edited NodePool), judged once the hash controller has caught up
+  for l in launches2 do
+    if l.err != "" then
+      if l.err != "no-permitted-option" && verdict.isNone then
+        verdict := some (s!"second wave: claim {l.claim} option {l.option}: {l.err}", "error")
+      continue
+    match scn.pools.find? (·.name == l.pool), pools.find? (·.name == l.pool) with
+    | some pool, some po =>
+      let sels := if l.pool == editPool && editKind == "reqs" then (editReqs.getD pool.reqs).map selOfMin else pool.reqs.map selOfMin
+      let mFresh : Option String :=
+        if !l.launched then none
+        else if Karp.Drift.staticDrifted { hash := po.hashAfter, version := po.versionAfter } { hash := l.hash, version := l.version } then
+          some Karp.Gen.C15Drift.reasonNodePoolDrifted
+        else match Karp.Drift.requirementsDrifted sels l.labels with
+          | .ok true => some Karp.Gen.C15Drift.reasonRequirementsDrifted
+          | .ok false => none
+          | .error _ => some "panic"
+      if modelBad.isNone && mFresh != l.fresh then
+        modelBad := some s!"second wave: claim {l.claim} option {l.option}: model {mFresh}, implementation {l.fresh}"
+      if verdict.isNone then
+        let when_ := if l.pool == editPool then
+            s!"after its {editKind} edit" ++ (if wave2 == "before-hash" then ", before the hash controller re-stamped the NodePool," else "")
+          else ""
+        if !l.launched then verdict := some (s!"second wave: claim {l.claim} option {l.option} was not launched", "error")
+        else if l.fresh.isSome then
+          if hashDiffersUnderSameVersion po.hashAfter po.versionAfter l.hash l.version then
+            verdict := some (s!"claim {l.claim} of {l.pool}, freshly created from the NodePool {when_} and launched as the permitted option {l.option}, " ++
+              s!"is reported Drifted ({l.fresh.getD ""}) once the hash controller has caught up: it carries hash {l.hash.getD "-"}, its NodePool's template hashes to {po.hashAfter.getD "-"}",
+              "fresh-claim-static-drift")
+          else
+            verdict := some (s!"second wave: claim {l.claim} of {l.pool}, freshly created {when_} and launched as the permitted option {l.option}, is reported Drifted ({l.fresh.getD ""})",
+              selfDriftClass pool sels l.labels l.reqs)
+        else if l.hash.isNone || l.hash != po.hashAfter || l.version != some Karp.Drift.currentVersion then
+          verdict := some (s!"second wave: claim {l.claim} of {l.pool} does not carry its NodePool's hash and the current hash version (claim {l.hash}/{l.version}, pool {po.hashAfter}/{po.versionAfter})", "claim-not-stamped")
+    | _, _ => if verdict.isNone then verdict := some (s!"second wave: claim {l.claim}: unknown pool {l.pool}", "harness")
   -- the edit and the hash annotation
   if verdict.isNone then
     for po in pools do
